@@ -10,6 +10,9 @@ THEOREMS = ["PQ.C12." + t for t in (
     "nan_ignored", "bounds_sound_str", "absent_if_empty", "bool_always_absent", "present_iff_value", "required_numeric_always_present",
     "minmax_attained_or_init", "page_stats_sound")]
 
+EXTRA_MODULES = ['PQ.Lemmas.StatsPage']
+EXTRA_THEOREMS = ['PQ.statsFields_get', 'PQ.statsUnsound_eq_none_iff', 'PQ.statsSound_written', 'PQ.statsUnsound_written', 'PQ.statsUnsound_specPage', 'PQ.statsSound_specPage', 'PQ.required_numeric_empty_unsound']
+
 
 def build_record(z, choose):
     """record of struct flat whose every leaf value comes from choose(ptype, column index)"""
@@ -90,7 +93,7 @@ def run(chk):
         cov["steps"] = rebuild_tools(chk.log)
         cov["steps"]["zoo"] = build_zoo(chk.log)
         build_pqh(chk.log)
-        pr = proof_stage(chk, MODULE, THEOREMS)
+        pr = proof_stage(chk, MODULE, THEOREMS + EXTRA_THEOREMS, EXTRA_MODULES, audit_imports=EXTRA_MODULES)
     pair = Pair(chk.log)
     z = filelevel.load_zoos(pair, ["flat"])["flat"]
     cases = [filelevel.Case(z, mx, codec, ops, tag) for mx, codec, ops, tag in workloads(chk, z, thorough)]
